@@ -877,7 +877,17 @@ func main() {
 			os.Exit(2)
 		}
 		if run.Fork(8) {
+			files, _ := filepath.Glob(filepath.Join(M.Dir, "harness-errors-*.txt"))
+			for _, f := range files {
+				blob, _ := os.ReadFile(f)
+				for _, l := range strings.Split(strings.TrimSpace(string(blob)), "\n") {
+					fmt.Println("HARNESS-ERROR:", l)
+				}
+			}
 			os.RemoveAll(M.Dir)
+			if len(files) > 0 {
+				os.Exit(2)
+			}
 			finish(cfgs, types, len(work))
 		}
 	}
@@ -895,11 +905,9 @@ func main() {
 	}
 	os.RemoveAll(tmp)
 	if len(harnessErrors) > 0 {
-		// a shard that cannot judge must not produce a verdict
-		for _, h := range harnessErrors {
-			fmt.Println("HARNESS-ERROR:", h)
-		}
-		os.Exit(2)
+		// a shard that cannot judge must not produce a verdict: the parent reads
+		// this file after the shards are merged and ends the run with exit 2
+		must(os.WriteFile(filepath.Join(M.Dir, fmt.Sprintf("harness-errors-%d.txt", si)), []byte(strings.Join(harnessErrors, "\n")+"\n"), 0o644))
 	}
 	flushDevHits()
 	run.Finish()
@@ -924,12 +932,13 @@ func finish(cfgs []keyCfg, types []sigType, nwork int) {
 		"signature_types":       tnames,
 		"cases":                 nwork,
 		"hashes":                map[bool][]string{false: {"sha256"}, true: {"sha256", "sha1", "sha384", "sha512"}}[run.Thorough()],
-		"paths":                 map[bool][]string{false: {"standalone"}, true: {"standalone", "server-handler (non-PKCS#12 configurations, sha256)"}}[run.Thorough()],
+		"paths":                 map[bool][]string{false: {"standalone", "worker-rpc (10 rotation scenarios)"}, true: {"standalone", "worker-rpc (10 rotation scenarios)", "server-handler (non-PKCS#12 configurations, sha256)"}}[run.Thorough()],
 	})
-	run.Rule("full product key configuration x signature type (thorough: x digest in {sha256,sha1,sha384,sha512}, plus the server-handler path with sha256): private key in {rsaA,rsaB,p256A,p256B,p384}; X.509 source in {leaf file, chain leaf-first, leaf-last, root-first, +unrelated root, +other leaf last/first, PKCS#7 bundle (PEM/DER/leaf-only/leaf-last, made by openssl), PKCS#12 (matching / key A leaf B / chain root-first / overridden by a file), certificate stored in the token (matching / other / leaf-last / stale), file of another key (same type, same curve other point, other curve, other algorithm), none, alias}; OpenPGP source in {matching, other key, other key type, two-entity keyrings binary/one armor/two armors in both orders, none}; token lookup in {requested key, a different key (same type / other type) for the requested name}. distinct_nontrivial = cases whose configuration is inconsistent, order-variant, certificate-less, token-based or uses a certificate source other than the plain chain/PGP file")
+	run.Rule("full product key configuration x signature type (thorough: x digest in {sha256,sha1,sha384,sha512}, plus the server-handler path with sha256): private key in {rsaA,rsaB,p256A,p256B,p384}; X.509 source in {leaf file, chain leaf-first, leaf-last, root-first, +unrelated root, +other leaf last/first, PKCS#7 bundle (PEM/DER/leaf-only/leaf-last, made by openssl), PKCS#12 (matching / key A leaf B / chain root-first / overridden by a file), certificate stored in the token (matching / other / leaf-last / stale), file of another key (same type, same curve other point, other curve, other algorithm), none, alias}; OpenPGP source in {matching, other key, other key type, two-entity keyrings binary/one armor/two armors in both orders, none}; token lookup in {requested key, a different key (same type / other type) for the requested name}; worker-RPC path (relic's worker client -> worker handler -> token cache -> scripted token, as used for pkcs11 tokens) with the key under the requested name {stable, replaced after the caller's lookup while the worker's cache entry is live / has expired, token honouring the caller's key id, token without key ids}. Separately: relic's signature builders called directly (pkcs7.SignatureBuilder with/without signed attributes, xmldsig.Sign, xmldsig.SignEnveloping) x 5 private keys x 7 certificate lists. distinct_nontrivial = cases whose configuration is inconsistent, order-variant, certificate-less, token-based or uses a certificate source other than the plain chain/PGP file")
 	run.Assume("canonical bytes of XML-DSig SignedInfo are taken from relic's xmldsig.SerializeCanonical (canonicalisation is C19's subject); digest and RSA/ECDSA verification over them are the harness's (Go crypto)")
 	run.Assume("OpenPGP packets are read and hashed with ProtonMail go-crypto's packet layer (PublicKey.VerifySignature), not with relic's pgptools; the key an OpenPGP signature 'embeds' is the issuer it names")
 	run.Assume("a scripted token answers a lookup with the configuration entry of the requested name (as every relic token does); a token that returns another key together with that key's own certificate is indistinguishable from a correct lookup and is not enumerated")
+	run.Assume("in the worker-RPC scenarios the scripted token stands for relic's pkcs11 token: it resolves keys by the configured name only and ignores the key id passed in the request context (as token/p11token/key.go does); the cache lifetime is relic's default (600 s) and is run out on a virtual clock (token/tokencache's time import rewritten to verif/shim/vtime)")
 	run.Assume("for CMS only the signature value is judged (signed attributes re-tagged as SET, or the content when there are none): messageDigest/content binding is C01/C02's subject")
 	run.Assume("the certificates field of CMS SignedData, X509Data, the APK v2 certificate sequence, the xar KeyInfo and the VSIX relationship part are treated as ordered lists whose first member must be the signer's certificate")
 	if len(extraKnown) > 0 {
